@@ -10,7 +10,7 @@ COQ_EXTRA = ['theories/Generated/K_gfx_selftest.vo', 'theories/Generated/K_gff_s
 MODEL = ('ExC17', ['c17_ops.ml', 'c17_main.ml'])
 MONITOR = ('MonC17', ['c17_ops.ml', 'c17_mon_main.ml'])
 SIZES = [8192, 4096, 256, 256, 4352]
-RULE = ('case = initial contents of the five regions + a history of 1-80 accessor calls (all 18 accessors), arguments '
+RULE = ('case = initial contents of the five regions + a history of 1-80 accessor calls (all 19 accessors, incl. Map.get_rect_pixels: x 0/126/127, rows 0/30/31/32/62/63, rectangles touching / crossing the right edge by 0, 1, many and reaching the bottom edge, maps holding tile ids 0, 1, 255), arguments '
         'concentrated on the edges (crossing the right/bottom edge by 0, 1, many cells; ids at 0/15/16/240/255; TRANSPARENT '
         'pixels; ragged rows; blocks of 140 rows or columns, offsets up to 1000; None fields); implementation run on a real Game object, every returned value and the whole '
         'memory after the history compared with the extracted model (correspondence) and with Spec/PlainMem.v through '
@@ -22,8 +22,8 @@ ASSUMPTIONS = ['in-contract arguments are the documented ranges (docstrings): id
 PARTIAL = ''
 CLAIM = dict(
     text=("Theorems (Coq, closed under the global context). C17_refines: for every well-formed memory (five regions of the "
-          "right sizes holding bytes) and every in-contract call of any of the 18 accessors - get_sprite/set_sprite, map "
-          "get/set cell, get/set_rect_tiles, the four flag ops, get/set note, sfx get/set properties, music get/set channel, "
+          "right sizes holding bytes) and every in-contract call of any of the 19 accessors - get_sprite/set_sprite, map "
+          "get/set cell, get/set_rect_tiles, get_rect_pixels, the four flag ops, get/set note, sfx get/set properties, music get/set channel, "
           "get/set properties - with any id / coordinates / offsets, rows of any number, length and raggedness, any overhang "
           "across the right or bottom edge, TRANSPARENT pixels and None fields, the model of the code never raises and "
           "returns exactly the value and the memory that the plain model of the documented semantics (Spec/PlainMem.v: "
@@ -37,7 +37,11 @@ CLAIM = dict(
           "at that offset if the ragged block has a non-TRANSPARENT value there and its old value otherwise (read-back, "
           "frame, clipping, transparency in one per-cell equation). Get-after-set laws: C17_pixel_readback, C17_cell_readback (incl. the shared "
           "rows), C17_mapget_after_mapset, C17_flagget_after_flagreset, C17_noteget_after_noteset (None fields keep their "
-          "value), C17_changet_after_chanset. C17_refines_nogfx / C17_nogfx_refuses: a Map without a Gfx behaves identically "
+          "value), C17_changet_after_chanset. C17_rect_pixels_at (no hypothesis on memory): the picture returned by get_rect_pixels has 8h "
+          "rows of 8w pixels and pixel (X, Y) is pixel (X mod 8, Y mod 8) of the tile in cell (x + X/8, y + Y/8) as get_rect_tiles "
+          "reads it (0 right of column 127, nothing wraps), tile 0 empty, tile t the 8x8 block of the sheet at ((t mod 16)*8, "
+          "(t/16)*8); C17_rect_pixels_readback: the same after set_rect_tiles, the tile being the block's value where the block "
+          "covers the cell. C17_nogfx_refuses_pixels: without a Gfx get_rect_pixels raises AssertionError. C17_refines_nogfx / C17_nogfx_refuses: a Map without a Gfx behaves identically "
           "on calls confined to rows 0-31 and refuses cell accesses below. C17_monitor_sound / C17_model_holds(_seq): the "
           "extracted monitor predicate says exactly 'no raise, the plain model's value and memory', and the code's model "
           "passes it on every call and history. Bit-level facts are complete vm_compute sweeps over the regenerated kernels "
@@ -49,12 +53,13 @@ CLAIM = dict(
     note=("Three clipping defects found by this check were repaired in the implementation (findings/known_findings.json, fixed): "
           "set_sprite clipped with > 128 (column 128 wrapped into the next row, row 128 raised IndexError), set_rect_tiles "
           "clipped rows with > 127 (AssertionError below row 63), get_rect_tiles asserted instead of zero-filling below the "
-          "map. Trusted: Coq kernel+VM, translator, extraction, OCaml glue, Spec/PlainMem.v as a faithful reading of the "
+          "map. get_rect_pixels keeps `assert 0 <= y + height <= 64` (rectangles extending below the map are refused although "
+          "get_rect_tiles zero-fills them): taken as part of this getter's contract, see notes/C17.md 'Suspicious'. Trusted: Coq kernel+VM, translator, extraction, OCaml glue, Spec/PlainMem.v as a faithful reading of the "
           "docstrings and the PICO-8 memory layout, the in_contract ranges. Out-of-contract calls are only compared "
           "model-vs-implementation (exception kinds)."),
     technique='Coq refinement proof (sweeps on regenerated kernels + induction over loops) + correspondence + extracted plain model as monitor',
     design_ref='8 C17')
-OPS_GET = ['gs', 'mgc', 'mgr', 'fg', 'sgn', 'sgp', 'mugc', 'mugp']
+OPS_GET = ['gs', 'mgc', 'mgr', 'mgp', 'fg', 'sgn', 'sgp', 'mugc', 'mugp']
 
 
 def _mem(rng, kind):
@@ -64,6 +69,11 @@ def _mem(rng, kind):
         return [b'\xff' * n for n in SIZES]
     if kind == 'ramp':
         return [bytes((j * 3 + i) & 255 for j in range(n)) for i, n in enumerate(SIZES)]
+    if kind == 'tiles':
+        # a map (both halves: rows 32-63 are gfx bytes 4096..) made of the tile ids that matter to get_rect_pixels
+        def tiles(n):
+            return bytes(rng.choice([0, 0, 1, 1, 255, 255, 16, 17, 128, rng.randrange(256)]) for _ in range(n))
+        return [rng.randbytes(4096) + tiles(4096), tiles(4096)] + [rng.randbytes(n) for n in SIZES[2:]]
     return [rng.randbytes(n) for n in SIZES]
 
 
@@ -104,7 +114,7 @@ def _opt(rng, hi):
 
 
 def gen_op(rng, contract=True):
-    k = rng.choice(['gs', 'ss', 'ss', 'mgc', 'msc', 'mgr', 'msr', 'msr', 'fg', 'fs', 'fc', 'fr',
+    k = rng.choice(['gs', 'ss', 'ss', 'mgc', 'msc', 'mgr', 'mgp', 'mgp', 'msr', 'msr', 'fg', 'fs', 'fc', 'fr',
                     'sgn', 'ssn', 'sgp', 'ssp', 'mugc', 'musc', 'mugp', 'musp'])
     ids = [0, 1, 14, 15, 16, 17, 127, 128, 239, 240, 241, 254, 255]
     if k == 'gs':
@@ -126,6 +136,20 @@ def gen_op(rng, contract=True):
     if k == 'mgr':
         y = rng.choice([0, 1, 30, 31, 32, 33, 60, 62, 63])
         return 'mgr,%d,%d,%d,%d' % (_edge(rng, 127), y, rng.choice([1, 2, 3, 9, 130]), rng.choice([1, 2, 3, 4, 9, 33, 64]))
+    if k == 'mgp':
+        # in contract: 0 <= x <= 127, 0 <= y, y + h <= 64; the right edge is crossed by 0, 1, many tiles, the bottom
+        # edge can only be reached (crossing it is refused: BAD_OPS)
+        # (the extracted model reads every pixel through an O(n) list access: keep most rectangles below ~40 tiles)
+        x = rng.choice([0, 0, 1, 64, 120, 125, 126, 126, 127, 127, 127])
+        y = rng.choice([0, 1, 30, 31, 31, 32, 32, 33, 60, 62, 63, 63])
+        big = rng.random() < 0.03
+        if x >= 120:
+            w = rng.choice([1, 2, 128 - x, 128 - x, 129 - x, 129 - x, 130 - x, 137 - x])
+        else:
+            w = rng.choice([128 - x, 129 - x, 140]) if big else rng.choice([1, 1, 2, 3])
+        hs = [v for v in [1, 1, 2, 3, 64 - y, 64 - y, 32 - y, 33 - y, 63 - y] if 1 <= v <= 64 - y]
+        h = rng.choice([v for v in hs if w * v <= 40 or (big and w * v <= 200)] or [1])
+        return 'mgp,%d,%d,%d,%d' % (x, y, w, h)
     if k == 'msr':
         return 'msr,%d,%d,%s' % (rng.choice([0, 1, 100, 119, 120, 125, 126, 127, 128, 130]),
                                  rng.choice([0, 1, 29, 30, 31, 32, 55, 56, 60, 62, 63, 64, 66, 120, 127, 128]),
@@ -161,7 +185,13 @@ BAD_OPS = [
         # negative ids / coordinates: Python would index from the end, the accessors must refuse (or model and code agree)
         'fg,-1,1', 'fc,-1,1', 'fr,-1,1', 'fg,-256,1', 'mgc,0,-1', 'msc,-1,0,1', 'msc,0,-1,1', 'mgr,-1,0,1,1', 'mgr,0,-1,1,1',
         'sgn,-1,0', 'sgn,0,-1', 'ssn,-1,0,1,1,1,1', 'ssn,0,-1,1,1,1,1', 'sgp,-1', 'ssp,-1,1,N,N,N', 'mugc,-1,0', 'mugc,0,-1',
-        'musc,-1,0,1', 'musc,0,-1,1', 'mugp,-1', 'musp,-1,1,N,N', 'ss,-1,0,0,01', 'ss,256,0,0,01', 'gs,0,-1,1', 'gs,0,1,-1']
+        'musc,-1,0,1', 'musc,0,-1,1', 'mugp,-1', 'musp,-1,1,N,N', 'ss,-1,0,0,01', 'ss,256,0,0,01', 'gs,0,-1,1', 'gs,0,1,-1',
+        # get_rect_pixels: x = 128, width / height 0, crossing the bottom edge (y + height = 65), negative coordinates
+        'mgp,128,0,1,1', 'mgp,0,0,0,1', 'mgp,0,0,1,0', 'mgp,0,63,1,2', 'mgp,0,1,1,64', 'mgp,0,64,1,1', 'mgp,-1,0,1,1',
+        'mgp,0,-1,1,2', 'mgp,0,-2,1,1', 'mgp,127,0,-1,1', 'mgp,0,0,1,-1', 'mgp,0,32,1,33']
+# calls on a Map without a Gfx (hasgfx = 0): get_rect_pixels refuses even inside rows 0-31; the others as documented
+NOGFX_OPS = ['mgp,0,0,1,1', 'mgp,127,31,2,1', 'mgp,0,31,1,2', 'mgp,0,32,1,1', 'mgr,0,0,2,2', 'mgr,0,31,1,2', 'mgc,0,31', 'mgc,0,32',
+             'msc,0,32,1', 'msr,0,31,01/02', 'msr,0,30,01/02']
 
 
 def gen_bad_op(rng):
@@ -170,7 +200,7 @@ def gen_bad_op(rng):
 
 def generate(tier, rng):
     n = 350 if tier == 'quick' else 8000
-    kinds = ['random', 'random', 'zero', 'ff', 'ramp']
+    kinds = ['random', 'random', 'zero', 'ff', 'ramp', 'tiles', 'tiles']
     for i in range(n):
         ln = rng.choice([1, 2, 5, 12, 30, 30, 80])
         case = {'hasgfx': 1, 'mem': [lib.hx(r) for r in _mem(rng, rng.choice(kinds))],
@@ -186,6 +216,8 @@ def generate(tier, rng):
         # every out-of-contract call once, then random ones
         ops = [gen_op(rng) for _ in range(rng.randrange(0, 4))] + [BAD_OPS[i] if i < len(BAD_OPS) else gen_bad_op(rng)]
         yield {'hasgfx': rng.choice([1, 1, 0]), 'mem': [lib.hx(r) for r in _mem(rng, 'ramp')], 'ops': ops, 'bad': True}
+    for op in NOGFX_OPS:
+        yield {'hasgfx': 0, 'mem': [lib.hx(r) for r in _mem(rng, 'tiles')], 'ops': [op], 'bad': True}
     if tier != 'quick':
         # exhaustive single placements along both edges
         z = [lib.hx(r) for r in _mem(rng, 'ramp')]
@@ -197,6 +229,13 @@ def generate(tier, rng):
             for y in list(range(22, 36)) + list(range(54, 68)):
                 yield {'hasgfx': 1, 'mem': z, 'ops': ['msr,%d,%d,%s' % (x, y, '/'.join(['0102030405060708090a'] * 10)),
                                                      'mgr,%d,%d,12,%d' % (min(x, 127), min(y, 63), max(1, min(12, 64 - min(y, 63))))]}
+        # get_rect_pixels: every rectangle of 1-3 x 1-2 tiles along the right edge and around rows 31/32 and 62/63
+        for kind in ['tiles', 'ramp']:
+            t = [lib.hx(r) for r in _mem(rng, kind)]
+            for x in range(122, 128):
+                for y in [0, 30, 31, 32, 61, 62, 63]:
+                    yield {'hasgfx': 1, 'mem': t, 'ops': ['mgp,%d,%d,%d,%d' % (x, y, w, h) for w in (1, 128 - x, 129 - x, 131 - x)
+                                                         for h in (1, 2) if y + h <= 64]}
 
 
 def corpus_cases():
@@ -207,6 +246,10 @@ def corpus_cases():
     yield {'hasgfx': 1, 'mem': z, 'ops': ['ss,240,0,8,01/02']}                          # row 128 IndexError
     yield {'hasgfx': 1, 'mem': z, 'ops': ['msr,0,63,01/02']}                            # row 64 AssertionError
     yield {'hasgfx': 1, 'mem': z, 'ops': ['msr,127,31,0102/0304', 'mgr,126,30,4,4']}
+    # get_rect_pixels: tile 0 is empty even when sprite 0 is not; tiles 1 / 255 drawn from the sheet; the shared rows
+    yield {'hasgfx': 1, 'mem': z, 'ops': ['ss,0,0,0,0102030405060708/0807060504030201', 'ss,1,0,0,0f0e0d0c0b0a0908',
+                                         'ss,255,7,7,0a', 'msr,126,31,0001ff/ff0100', 'mgp,126,31,3,2', 'mgp,0,0,1,1',
+                                         'mgp,127,63,1,1', 'mgp,0,0,1,64']}
 
 
 def _fmt(v):
@@ -254,6 +297,8 @@ def apply_op(g, op):
         return g.map.set_cell(int(a[1]), int(a[2]), int(a[3]))
     if k == 'mgr':
         return g.map.get_rect_tiles(int(a[1]), int(a[2]), int(a[3]), int(a[4]))
+    if k == 'mgp':
+        return g.map.get_rect_pixels(int(a[1]), int(a[2]), int(a[3]), int(a[4]))
     if k == 'msr':
         return g.map.set_rect_tiles(_rows_arg(a[3]), int(a[1]), int(a[2]))
     if k == 'fg':
@@ -363,6 +408,8 @@ def _sigop(op):
         return 'msr/right%+d/bottom%+d' % (max(ex, -1), max(ey, -1)) if (ex >= 0 or ey >= 0) else 'msr/inside'
     if k == 'mgr':
         return 'mgr/bottom%+d' % max(int(a[2]) + int(a[4]) - 64, -1)
+    if k == 'mgp':
+        return 'mgp/right%+d/bottom%+d' % (max(int(a[1]) + int(a[3]) - 128, -1), max(int(a[2]) + int(a[4]) - 64, -1))
     return k
 
 
